@@ -21,8 +21,8 @@ theorem divergingFixup_run (mul : K) (depth : Nat) (rest : List (Step K)) :
     coefficient, never returns -/
 theorem chain_diverges (coeff : K) (hc : (coeff == 1) = false) (depth : Nat) (mid : UnitV K)
     (ops : List Op) (hops : ops.any (·.outBuf) = true) (rest : List (Step K)) :
-    (runSteps (chainSteps true none none coeff depth mid true ops ++ rest)).result = .error .RuntimeError
-    ∧ (runSteps (chainSteps true none none coeff depth mid true ops ++ rest)).effects
+    (runSteps (chainSteps true none [] none coeff depth mid true ops ++ rest)).result = .error .RuntimeError
+    ∧ (runSteps (chainSteps true none [] none coeff depth mid true ops ++ rest)).effects
         = .kernel "chain" :: List.replicate depth (.scale coeff) := by
   induction ops with
   | nil => simp at hops
@@ -30,7 +30,7 @@ theorem chain_diverges (coeff : K) (hc : (coeff == 1) = false) (depth : Nat) (mi
     unfold chainSteps
     by_cases ho : op.outBuf = true
     · simp only [ho, if_true, hc, Bool.false_eq_true, if_false, List.cons_append, List.nil_append, List.append_assoc, runSteps]
-      have := divergingFixup_run coeff depth (Step.eff "W:out.units" (Eff.setUnits mid) :: (chainSteps true none none coeff depth mid false r ++ rest))
+      have := divergingFixup_run coeff depth (Step.eff "W:out.units" (Eff.setUnits mid) :: (chainSteps true none [] none coeff depth mid false r ++ rest))
       exact ⟨this.1, by rw [this.2]⟩
     · have ho' : op.outBuf = false := by simpa using ho
       simp only [ho', Bool.false_eq_true, if_false]
@@ -50,8 +50,9 @@ theorem allEff_passes (s : List (Step K)) (h : allEff s = true) : s.all Step.pas
       simp only [List.all_cons, Step.passes, Bool.true_and]
       exact ih h.2
 
-theorem chain_false_allEff (re : Bool) (r k : Option Err) (c : K) (d : Nat) (mid : UnitV K) (ops : List Op) :
-    allEff (chainSteps re r k c d mid false ops) = true := by
+theorem chain_false_allEff (re : Bool) (r : Option Err) (pm : List (Step K)) (k : Option Err) (c : K) (d : Nat)
+    (mid : UnitV K) (ops : List Op) :
+    allEff (chainSteps re r pm k c d mid false ops) = true := by
   induction ops with
   | nil => rfl
   | cons op rest ih =>
@@ -64,58 +65,79 @@ theorem chain_false_allEff (re : Bool) (r k : Option Err) (c : K) (d : Nat) (mid
       simp only [ho', Bool.false_eq_true, if_false]
       exact ih
 
-/-- the chain (raw-buffer post-multiplication, or a unit without coefficient): two checks, then effects only -/
-theorem chain_true_shape (re : Bool) (r k : Option Err) (c : K) (hc : re = false ∨ (c == 1) = true) (d : Nat)
-    (mid : UnitV K) (ops : List Op) :
-    chainSteps re r k c d mid true ops = []
-    ∨ ∃ tl, allEff tl = true ∧ chainSteps re r k c d mid true ops
-        = .check "F:unit_operator" r :: .check "W:func(out=out_func)" k :: tl := by
+/-- the chain (raw-buffer post-multiplication, or a unit without coefficient): the unit check, the
+    promotion of an integer array, the kernel's own check, then effects only -/
+theorem chain_true_shape (re : Bool) (r : Option Err) (pm : List (Step K)) (k : Option Err) (c : K)
+    (hc : re = false ∨ (c == 1) = true) (d : Nat) (mid : UnitV K) (ops : List Op) :
+    chainSteps re r pm k c d mid true ops = []
+    ∨ ∃ tl, allEff tl = true ∧ chainSteps re r pm k c d mid true ops
+        = .check "F:unit_operator" r :: (pm ++ .check "W:func(out=out_func)" k :: tl) := by
   induction ops with
   | nil => exact Or.inl rfl
   | cons op rest ih =>
     unfold chainSteps
     by_cases ho : op.outBuf = true
-    · have hrest := chain_false_allEff re r k c d mid rest
+    · have hrest := chain_false_allEff re r pm k c d mid rest
       simp only [allEff] at hrest
       rcases hc with hre | hc1
       · subst hre
         by_cases hc1 : (c == 1) = true
-        · refine Or.inr ⟨_, ?_, by simp only [ho, if_true, hc1, List.cons_append, List.nil_append, List.append_nil]; rfl⟩
+        · refine Or.inr ⟨_, ?_, by simp only [ho, if_true, hc1, List.cons_append, List.nil_append, List.append_nil, List.append_assoc]; rfl⟩
           simp only [allEff, List.all_cons, List.all_append, Step.isEff, Bool.true_and, List.all_nil, Bool.and_true]
           exact hrest
         · have hc0 : (c == 1) = false := by simpa using hc1
-          refine Or.inr ⟨_, ?_, by simp only [ho, if_true, hc0, Bool.false_eq_true, if_false, List.cons_append, List.nil_append, List.append_nil]; rfl⟩
+          refine Or.inr ⟨_, ?_, by simp only [ho, if_true, hc0, Bool.false_eq_true, if_false, List.cons_append, List.nil_append, List.append_nil, List.append_assoc]; rfl⟩
           simp only [allEff, List.all_cons, List.all_append, Step.isEff, Bool.true_and, List.all_nil, Bool.and_true]
           exact hrest
-      · refine Or.inr ⟨_, ?_, by simp only [ho, if_true, hc1, List.cons_append, List.nil_append, List.append_nil]; rfl⟩
+      · refine Or.inr ⟨_, ?_, by simp only [ho, if_true, hc1, List.cons_append, List.nil_append, List.append_nil, List.append_assoc]; rfl⟩
         simp only [allEff, List.all_cons, List.all_append, Step.isEff, Bool.true_and, List.all_nil, Bool.and_true]
         exact hrest
     · have ho' : op.outBuf = false := by simpa using ho
       simp only [ho', Bool.false_eq_true, if_false]
       exact ih
 
-/-- the steps of `convert_to_equivalent` across dimensions when the `out=` promotion succeeds, spelled out -/
+/-- the steps of `convert_to_equivalent` across dimensions, spelled out -/
 theorem cte_steps_across (fl : CtuFlags) (N : NumpyFacts) (P : DtypeRules) (pre : Prefixes K) (t : Lut K) (T : EmTable K)
-    (reg : List EquivRec) (a : Arr K) (c : EquivCall K) (cu : UnitV K) (e : EquivRec) (f : Formula) (md : Dtype)
+    (reg : List EquivRec) (a : Arr K) (c : EquivCall K) (cu : UnitV K) (e : EquivRec) (f : Formula)
     (h1 : c.convUnit = .ok cu) (h2 : (a.unit.dim == cu.dim) = false) (h3 : findEquiv reg c.name = some e)
     (h4 : e.dims.contains a.unit.dim = true) (h5 : e.convert .inplace a.unit.dim cu.dim = .ok (some f))
-    (h6 : acceptsParams reg (some c.name) c.kwargs = true) (h7 : outPromote N P a.dtype = .ok md)
-    (hw : a.writeable = true) :
+    (h6 : acceptsParams reg (some c.name) c.kwargs = true) :
     convertToEquivalentSteps fl N P pre t T reg a c =
       [.check Tag.mkUnit none, .check Tag.registry none, .check Tag.equivInplace none, .check Tag.hasEquiv none,
        .check Tag.callConvert none] ++
-      ((if md == a.dtype then []
-        else (if fl.outRoGuard then [.check "F:raise:ValueError" (if a.writeable then none else some .ValueError)] else []) ++
-             [.eff "W:out.dtype" (.retype md), .check "W:copyto(out)" (if a.writeable then none else some .ValueError),
-              .eff "W:copyto(out)" (.castCopy md)]) ++
-       chainSteps c.reenters (offsetRefusal c.powRefuses a.unit f) (chainKernelRefuses N a.writeable md) c.selfCoeff c.depth
-          (midUnit cu.dim) true (inplaceOps e a.unit.dim cu.dim)
+      (chainSteps c.reenters (offsetRefusal c.powRefuses a.unit f) (promoOut fl N P a)
+          (chainKernelRefuses N a.writeable (promotedDtype N P a.dtype)) c.selfCoeff c.depth (midUnit cu.dim) true
+          (inplaceOps e a.unit.dim cu.dim)
         ++ (.check Tag.callCtu none ::
-            convertToUnitsSteps fl N P pre t T { a with unit := midUnit cu.dim, dtype := md } (.ok cu))
+            convertToUnitsSteps fl N P pre t T { a with unit := midUnit cu.dim, dtype := promotedDtype N P a.dtype } (.ok cu))
         ++ [.eff Tag.setName .clearName]) := by
   unfold convertToEquivalentSteps
-  simp only [h1, h2, h3, h4, h5, h6, h7, hw, Bool.false_eq_true, if_false, Bool.not_true, beq_self_eq_true, if_true,
+  simp only [h1, h2, h3, h4, h5, h6, Bool.false_eq_true, if_false, Bool.not_true, beq_self_eq_true, if_true,
     Bool.and_false, List.cons_append, List.nil_append, List.append_assoc]
+
+/-- what `_float_out_view` does on a writeable array: either it refuses (`astype`) before any effect,
+    or every step passes and the effects are the re-typing pair (nothing for a non-integer dtype) -/
+theorem promoOut_cases (fl : CtuFlags) (N : NumpyFacts) (P : DtypeRules) (a : Arr K) (hw : a.writeable = true) :
+    (∃ e, (runSteps (promoOut fl N P a)).result = .error e ∧ ∀ rest, (runSteps (promoOut fl N P a ++ rest)).effects = [])
+    ∨ ((promoOut fl N P a).all Step.passes = true
+        ∧ (effSteps (promoOut fl N P a) = []
+           ∨ ∃ md, outPromote N P a.dtype = .ok md ∧ effSteps (promoOut fl N P a) = [.retype md, .castCopy md])) := by
+  unfold promoOut
+  cases hi : P.outIntKinds.contains a.dtype.kind with
+  | false => right; simp [effSteps]
+  | true =>
+    simp only [hw, Bool.not_true, Bool.false_eq_true, if_false, if_true]
+    cases hp : outPromote N P a.dtype with
+    | error er =>
+      left
+      refine ⟨er, ?_, ?_⟩
+      · cases fl.outRoGuard <;> simp [runSteps]
+      · intro rest; cases fl.outRoGuard <;> simp [runSteps]
+    | ok md =>
+      right
+      refine ⟨?_, Or.inr ⟨md, rfl, ?_⟩⟩
+      · cases fl.outRoGuard <;> simp [Step.passes]
+      · cases fl.outRoGuard <;> simp [effSteps]
 
 /-- the final `convert_to_units` of `convert_to_equivalent` starts from the coherent unit of the
     requested dimension: its dimension check cannot fail -/
